@@ -36,7 +36,7 @@ var stepKinds = func() []string {
 
 func run(t *rapid.T) {
 	cfg := caseCfg{
-		twoSessions: rapid.IntRange(0, 3).Draw(t, "twoSessions") > 0,
+		twoSessions: uni(t, "twoSessions", 4) > 0,
 		noParallel:  rapid.Bool().Draw(t, "noParallel"),
 	}
 
@@ -67,8 +67,8 @@ func run(t *rapid.T) {
 
 	nUpd, nCmd := 0, 0
 
-	for i, n := 0, rapid.IntRange(1, 32).Draw(t, "steps"); i < n; i++ {
-		k := stepKinds[rapid.IntRange(0, len(stepKinds)-1).Draw(t, "step")]
+	for i, n := 0, 1+uni(t, "steps", 30); i < n; i++ {
+		k := stepKinds[uni(t, "step", len(stepKinds))]
 
 		switch {
 		case k == "cmd":
@@ -83,7 +83,7 @@ func run(t *rapid.T) {
 
 			nCmd++
 
-			e.exec(step{op: "cmd", c: c, echoTimes: rapid.IntRange(1, 2).Draw(t, "echoTimes")})
+			e.exec(step{op: "cmd", c: c, echoTimes: 1+uni(t, "echoTimes", 2)})
 
 		case nUpd >= 25:
 			continue
@@ -109,7 +109,7 @@ func run(t *rapid.T) {
 
 			nUpd++
 
-			e.exec(step{op: "dup", d: cand[rapid.IntRange(lo, len(cand)-1).Draw(t, "dupOf")], times: 1, focus: rapid.Bool().Draw(t, "focus")})
+			e.exec(step{op: "dup", d: cand[lo+uni(t, "dupOf", len(cand)-lo)], times: 1, focus: rapid.Bool().Draw(t, "focus")})
 
 		case k == "progress":
 			nUpd++
@@ -125,10 +125,10 @@ func run(t *rapid.T) {
 			times := 1
 
 			if k != kUIDValidityBump {
-				times = []int{1, 1, 1, 1, 2, 2, 3}[rapid.IntRange(0, 6).Draw(t, "times")]
+				times = []int{1, 1, 1, 1, 2, 2, 3}[uni(t, "times", 7)]
 			}
 
-			e.exec(step{op: "upd", d: d, times: times, focus: rapid.IntRange(0, 2).Draw(t, "focus") == 0})
+			e.exec(step{op: "upd", d: d, times: times, focus: uni(t, "focus", 3) == 0})
 		}
 	}
 
@@ -165,7 +165,7 @@ func run(t *rapid.T) {
 func msgLiteral(marker string) []byte { return machMsg(marker, "remote") }
 
 func TestC06Sequences(t *testing.T) {
-	ev.Checks(110, 650)
+	ev.Checks(110, 500)
 	rapid.Check(t, run)
 }
 
